@@ -18,6 +18,7 @@ TECHNIQUE = 'runtime monitor on copy()/deepcopy/==/hash: reflective id-set shari
 RULE = ('trees = everything the mindsdb parser accepts from the corpus + generated templates (all statement kinds) + planner-made identifiers '
         'carrying sub_select; plans = generated federated / model / time-series / DML plans; every single-slot mutation of the copy; equality on '
         '(x, x), (x, copy), (x, other), (x, mutated copy) in both orders; non-trivial = tree with >= 3 nodes or plan with >= 2 steps; distinct by struct digest')
+RULE += '; also: alias and parentheses changed at the first, middle and last slot, statements of several thousand characters'
 ASSUMPTIONS = ['all state of a node is reachable through vars() / list / dict / tuple', 'strings, numbers, None and tuples of those are immutable and may be shared']
 BUDGET = {'quick': (8, 240), 'thorough': (16, 1800)}
 
